@@ -452,18 +452,30 @@ def rule_r5(ck, prog):
     ids = rcalls('SetIdentity')
     if ids:
         a = ids[0].n['args'][1] if len(ids[0].n.get('args', [])) > 1 else None
-        n = strip_casts(f, a) if a is not None else None
         ok = False
-        if n is not None and n['k'] == 'cond':
-            core, pol = norm_cond(f, n['cnd'])
-            cn = f.nodes[core]
-            isvalid = cn['k'] == 'call' and strip_targs(cn.get('c', '')).endswith('SpanContext::IsValid') and \
-                f.nodes[cn['obj']].get('name') == 'parent_span_context'
-            ta, tb = (n['a'], n['b']) if pol else (n['b'], n['a'])
-            an, bn = strip_casts(f, ta), strip_casts(f, tb)
-            a_ok = an['k'] == 'call' and strip_targs(an.get('c', '')).endswith('SpanContext::span_id') and f.nodes[an['obj']].get('name') == 'parent_span_context'
-            b_ok = bn['k'] == 'construct' and strip_targs(bn.get('c', '')).endswith('SpanId::SpanId') and not bn.get('args')
-            ok = isvalid and a_ok and b_ok
+        if a is not None:
+            from .common import scenario_sources
+            ppar = [p for p in f.params if 'SpanContext' in p['t'] and 'unique_ptr' not in p['t']]
+            pids = {p['id'] for p in ppar}
+
+            def atom_role(ff, cnd, ctx):
+                core, pol = norm_cond(ff, cnd)
+                cn = strip_casts(ff, core)
+                if cn['k'] == 'call' and strip_targs(cn.get('c', '')).endswith('SpanContext::IsValid') and cn.get('obj') is not None and \
+                        strip_casts(ff, cn['obj']).get('id') in pids:
+                    return 'parentValid', pol
+                return None, pol
+
+            def classify(ff, n, ctx):
+                if n['k'] == 'call' and strip_targs(n.get('c', '')).endswith('SpanContext::span_id') and n.get('obj') is not None and \
+                        strip_casts(ff, n['obj']).get('id') in pids:
+                    return 'parent-span-id'
+                if n['k'] == 'construct' and strip_targs(n.get('c', '')).endswith('SpanId::SpanId') and not n.get('args'):
+                    return 'zero'
+                return None
+            v_ = scenario_sources(g, f, a, ids[0].ctx, {'parentValid': True}, atom_role, classify, at=ids[0])
+            i_ = scenario_sources(g, f, a, ids[0].ctx, {'parentValid': False}, atom_role, classify, at=ids[0])
+            ok = v_ == {'parent-span-id'} and i_ == {'zero'}
         ck.verdict(ok, 'C04.R5', f, 'start:parent-id', ids[0].n,
                    'parent id = parent.IsValid() ? parent.span_id() : SpanId()' if ok else
                    'the parent span id handed to SetIdentity is not parent.IsValid() ? parent.span_id() : SpanId()')
